@@ -186,10 +186,20 @@ def run(ch, config, res):
         with ch.scope("run"):
             version = not wl.flag("noversion", 1, 3)
             starttls = wl.flag("starttls", 1, 4)
-            sasl = [wl.pick("mech", ["PLAIN", "LOGIN", "OAUTHBEARER"])]
+            sasl = [wl.pick("mech", ["PLAIN", "LOGIN", "OAUTHBEARER", "DIGEST-MD5"])]
     cfg = ServerConfig(version=version, starttls=starttls, sasl_pre=sasl, max_script_size=5000)
     world = World(ch, cfg, client_impl=config.get("client", "real"), read_size=rsz)
     srv = world.server
+    authz = ""
+    if cell is None:
+        # random sessions: the server calls itself one of many things; the session may be opened with an authorisation
+        # id (also one that repeats the login); DIGEST-MD5's final data travels in a challenge or in the OK
+        srv.cap_variation = True
+        with ch.scope("run"):
+            if sasl[0] in ("PLAIN", "DIGEST-MD5"):
+                authz = ["", "", "admin", "user"][wl.int("authz", 4)]
+        with ch.scope("srvcfg"):
+            srv.digest_final_in_ok = ch.srv.flag("digest_final_in_ok", 1, 2)
     srv.data_variation = False
     srv.scripts[b"alpha"] = b"# a\r\nkeep;\r\n"
     srv.scripts[b"beta"] = b"# b\r\nkeep;\r\n"
@@ -257,7 +267,8 @@ def run(ch, config, res):
             srv.fault_weights = [10, 2, 1, 0, 0, 0, 0, 0]
         mech = {"connect-login": "LOGIN", "connect-oauth": "OAUTHBEARER"}.get(op)
         with ch.scope("op#0"):
-            o = world.call(client, "connect", "user", "password", starttls=starttls, authmech=mech)
+            kw = {"authz_id": authz} if authz else {}
+            o = world.call(client, "connect", "user", "password", starttls=starttls, authmech=mech, **kw)
         recs = [r for r in srv.log if r.call_id == o.call_id]
         calls.append(("connect", o))
         failure = judge_call("connect", o, recs)
